@@ -2,7 +2,9 @@
 
 pub mod choice;
 pub mod engine;
+pub mod gen;
 pub mod known;
+pub mod model;
 pub mod props;
 pub mod runner;
 pub mod util;
